@@ -871,6 +871,14 @@ fn fault_scripts(chunks: &[u64]) -> Vec<(String, Vec<Op>)> {
             v.push(Op::Chunk(chunks[pos] + 1));
             v.extend_from_slice(&base[pos + 1..]);
             out.push((format!("one-extra-byte@{}", pos), v));
+            // a chunk that overshoots what is still owed, followed by chunks that would have fitted:
+            // after the too-long error nothing of them may be passed on
+            let owed: u64 = chunks[pos..].iter().sum();
+            let mut v = base[..pos].to_vec();
+            v.push(Op::Chunk(owed + 1));
+            v.push(Op::Chunk(1));
+            v.push(Op::Chunk(owed));
+            out.push((format!("one-overshoot-then-more@{}", pos), v));
         }
         // an empty chunk / a Pending inserted at pos (harmless)
         let mut v = base[..pos].to_vec();
